@@ -841,6 +841,9 @@ func (m *Machine) call(caller *frame, callpos token.Pos, fn value, args []value)
 	panic(engineFault(fmt.Sprintf("cannot call %T", fn)))
 }
 
+// fallthroughExt is returned by an external to request normal interpretation.
+type fallthroughExt struct{}
+
 // nativeFunc is an engine-implemented function value.
 type nativeFunc struct {
 	name string
@@ -862,7 +865,9 @@ func (m *Machine) callSSA(caller *frame, callpos token.Pos, fn *ssa.Function, ar
 		}
 		r := fi.ext(m, fr, args)
 		m.cur = saved
-		return r
+		if _, ft := r.(fallthroughExt); !ft {
+			return r
+		}
 	}
 	if fn.Blocks == nil {
 		panic(unsupported("no code for function: " + fn.String()))
